@@ -6,8 +6,11 @@
    (python float operations); it is instantiated below with exact rationals
    [Q] (normalised with Qred) for proofs and for exact evaluation.  Grid counts
    are [Z].  Python exceptions are explicit ([res]).  The model follows the
-   code as it is (after commit 54cff74): quirks are kept, see comments marked
-   QUIRK.  No proofs in this file. *)
+   code as it is (after commit 54cff74 and the repairs of findings C17-F11 -
+   fixed-column fallback in parse_lines -, C17-F13 - last five words of a
+   whitespace-delimited record - and C17-F12 - integer nsmall and proc_grid):
+   quirks are kept, see comments marked QUIRK.  No proofs in this
+   file. *)
 From Coq Require Import String Ascii List ZArith QArith Bool.
 From PV Require Import Lib.Strings Lib.Decimal.
 Import ListNotations.
@@ -20,7 +23,6 @@ Inductive err :=
 | ErrZeroDiv     (* ZeroDivisionError *)
 | ErrCeiling     (* ValueError raised by set_smallest (ceiling too small) *)
 | ErrLog         (* ValueError: math domain error *)
-| ErrFmtD        (* ValueError: Unknown format code 'd' for object of type 'float' *)
 | ErrFuel        (* model only: loop fuel exhausted (proved unreachable for Q) *)
 | ErrUnmodelled. (* model only: outside the modelled parameter domain *)
 
@@ -41,6 +43,7 @@ Record Arith (A : Type) := mkArith {
   ltb : A -> A -> bool;       (* python a < b *)
   ofZ : Z -> A;               (* float(int) / literals *)
   trunc : A -> Z;             (* int(a) : truncation toward zero *)
+  round : A -> Z;             (* round(a) : nearest integer, ties to even *)
   ilog1 : A -> A -> res Z     (* int(log(x) / log(r) + 1.0) *)
 }.
 
@@ -139,35 +142,31 @@ Section Generic.
 
   (* ---- set_smallest ---------------------------------------------------- *)
 
-  (* QUIRK: nsmall starts as python ints; a reduced entry becomes a float
-     (true division).  The tag matters for the ':d' formats of __str__. *)
-  Inductive pynum := PInt (z : Z) | PFloat (a : A).
-  Definition toA (n : pynum) : A := match n with PInt z => ofZ A ops z | PFloat a => a end.
+  (* nsmall is a list of python ints: a copy of ngrid, reduced with floor
+     division (C17-F12 repaired: it used to be true division, i.e. floats) *)
 
   (* 200.0 * n0 * n1 * n2 / 1024 / 1024 ; QUIRK: literal 200, not gmemfac *)
-  Definition mem_mb (n : vec3 pynum) : A :=
+  Definition mem_mb (n : vec3 Z) : A :=
     let '(a, b, c) := n in
-    div A ops (div A ops (mul A ops (mul A ops (mul A ops (ofZ A ops 200) (toA a)) (toA b)) (toA c))
+    div A ops (div A ops (mul A ops (mul A ops (mul A ops (ofZ A ops 200) (ofZ A ops a)) (ofZ A ops b)) (ofZ A ops c))
                    (ofZ A ops 1024)) (ofZ A ops 1024).
 
-  (* 32 * ((n - 1) / 32 - 1) + 1 *)
-  Definition reduce (n : A) : A :=
-    add A ops (mul A ops (ofZ A ops 32)
-                 (sub A ops (div A ops (sub A ops n one) (ofZ A ops 32)) one)) one.
+  (* 32 * ((n - 1) // 32 - 1) + 1 on python ints (floor division) *)
+  Definition reduce (n : Z) : Z := (32 * ((n - 1) / 32 - 1) + 1)%Z.
 
   (* one pass of the `while 1` loop body after the memory test:
      i = nsmall.index(max(nsmall)); reduce; `<= 0` raises *)
-  Definition shrink (n : vec3 pynum) : res (vec3 pynum) :=
+  Definition shrink (n : vec3 Z) : res (vec3 Z) :=
     let '(a, b, c) := n in
-    let m := pmax (pmax (toA a) (toA b)) (toA c) in
-    if eqbA (toA a) m then
-      let v := reduce (toA a) in if leb v zero then Err ErrCeiling else Ok (PFloat v, b, c)
-    else if eqbA (toA b) m then
-      let v := reduce (toA b) in if leb v zero then Err ErrCeiling else Ok (a, PFloat v, c)
+    let m := Z.max (Z.max a b) c in
+    if (a =? m)%Z then
+      let v := reduce a in if (v <=? 0)%Z then Err ErrCeiling else Ok (v, b, c)
+    else if (b =? m)%Z then
+      let v := reduce b in if (v <=? 0)%Z then Err ErrCeiling else Ok (a, v, c)
     else
-      let v := reduce (toA c) in if leb v zero then Err ErrCeiling else Ok (a, b, PFloat v).
+      let v := reduce c in if (v <=? 0)%Z then Err ErrCeiling else Ok (a, b, v).
 
-  Fixpoint smallest (fuel : nat) (ceil : A) (n : vec3 pynum) : res (vec3 pynum) :=
+  Fixpoint smallest (fuel : nat) (ceil : A) (n : vec3 Z) : res (vec3 Z) :=
     match fuel with
     | O => Err ErrFuel
     | S f =>
@@ -183,19 +182,19 @@ Section Generic.
   (* ---- set_proc_grid --------------------------------------------------- *)
 
   Definition zofac (ofrac : A) : A := add A ops one (mul A ops (ofZ A ops 2) ofrac).
-  Definition nproc_pre1 (ofrac : A) (ng : Z) (ns : pynum) : A :=
-    add A ops (div A ops (mul A ops (zofac ofrac) (ofZ A ops ng)) (toA ns)) one.
-  (* QUIRK: stays the float ratio (1.0) unless > 1 *)
-  Definition nproc1 (ofrac : A) (ng : Z) (ns : pynum) : pynum :=
-    let ratio := div A ops (ofZ A ops ng) (toA ns) in
-    if gtb ratio one then PInt (trunc A ops (nproc_pre1 ofrac ng ns)) else PFloat ratio.
+  Definition nproc_pre1 (ofrac : A) (ng ns : Z) : A :=
+    add A ops (div A ops (mul A ops (zofac ofrac) (ofZ A ops ng)) (ofZ A ops ns)) one.
+  (* proc_grid[i] = 1; if ngrid[i] > nsmall[i]: int(zofac * ngrid / nsmall + 1.0)
+     (C17-F12 repaired: the unreduced axes used to keep the float ratio 1.0) *)
+  Definition nproc1 (ofrac : A) (ng ns : Z) : Z :=
+    if (ns <? ng)%Z then trunc A ops (nproc_pre1 ofrac ng ns) else 1%Z.
 
   (* ---- set_focus ------------------------------------------------------- *)
 
-  Definition focus_arg1 (fine : A) (np : pynum) (coarse : A) : A :=
-    div A ops (div A ops fine (toA np)) coarse.
-  Definition nfoc1 (redfac fine : A) (np : pynum) (coarse : A) : res Z :=
-    if eqbA (toA np) zero then Err ErrZeroDiv
+  Definition focus_arg1 (fine : A) (np : Z) (coarse : A) : A :=
+    div A ops (div A ops fine (ofZ A ops np)) coarse.
+  Definition nfoc1 (redfac fine : A) (np : Z) (coarse : A) : res Z :=
+    if (np =? 0)%Z then Err ErrZeroDiv
     else if eqbA coarse zero then Err ErrZeroDiv
     else ilog1 A ops (focus_arg1 fine np coarse) redfac.
   Definition nfocus_of (a b c : Z) : Z :=
@@ -206,7 +205,7 @@ Section Generic.
   Record sizing := mkSizing {
     s_mol : vec3 A; s_coarse : vec3 A; s_fine : vec3 A; s_center : vec3 A;
     s_temp : vec3 Z; s_ngrid : vec3 Z;
-    s_nsmall : vec3 pynum; s_nproc : vec3 pynum; s_nfocus : Z
+    s_nsmall : vec3 Z; s_nproc : vec3 Z; s_nfocus : Z
   }.
 
   Definition mol_of (mn mx : vec3 A) : vec3 A := zip3 mol_len1 mx mn.
@@ -231,7 +230,7 @@ Section Generic.
         if eqbA (p_space p) zero then Err ErrZeroDiv else
         let temp := temp_of p mn mx in
         let ng := ngrid_of p mn mx in
-        bind (smallest (smallest_fuel ng) (p_gmemceil p) (map3 PInt ng)) (fun ns =>
+        bind (smallest (smallest_fuel ng) (p_gmemceil p) ng) (fun ns =>
         let np := zip3 (nproc1 (p_ofrac p)) ng ns in
         let '(f0, f1, f2) := fine in
         let '(n0, n1, n2) := np in
@@ -244,12 +243,23 @@ Section Generic.
 
   (* ---- the memory part of Psize.__str__ -------------------------------- *)
 
-  (* f"{n:d}" *)
-  Definition fmt_d_ok (n : pynum) : bool := match n with PInt _ => true | PFloat _ => false end.
+  (* every operand of a ':d' format (ngrid, nproc, nsmall) is a python int
+     since C17-F12 was repaired; what can still raise is a division *)
+
+  Definition milli : A := div A ops (ofZ A ops 1) (ofZ A ops 1000).            (* 0.001 *)
+  (* 1 + 2 * ofrac - 0.001 *)
+  Definition glob_den (ofrac : A) : A := sub A ops (zofac ofrac) milli.
+  (* xglob = nproc * round(nsmall / (1 + 2*ofrac - 0.001)); if nproc == 1: xglob = nsmall *)
+  Definition glob1 (ofrac : A) (np ns : Z) : Z :=
+    if (np =? 1)%Z then ns
+    else (np * round A ops (div A ops (ofZ A ops ns) (glob_den ofrac)))%Z.
+  (* fine_length[i] / (n - 1) for the three axes *)
+  Definition spacing_ok (n : vec3 Z) : bool :=
+    let '(a, b, c) := n in negb ((a =? 1)%Z || (b =? 1)%Z || (c =? 1)%Z).
 
   Record mem_report := mkReport {
     r_parallel : bool;
-    r_grid : vec3 pynum;    (* the grid the figures are computed from *)
+    r_grid : vec3 Z;        (* the grid the figures are computed from *)
     r_est_mb : A;           (* "Estimated mem. required for ... solve" *)
     r_per_proc_mb : A       (* "Memory per processor" *)
   }.
@@ -257,16 +267,16 @@ Section Generic.
   (* None = "No ATOM entries in file!" *)
   Definition report (p : params) (st : pstate) (sz : sizing) : res (option mem_report) :=
     if (0 <? gotatom st)%Z then
-      let ng := map3 PInt (s_ngrid sz) in
-      let gmem := mem_mb ng in
+      let gmem := mem_mb (s_ngrid sz) in
       let nsmem := mem_mb (s_nsmall sz) in
       if gtb gmem (p_gmemceil p) then
-        let '(p0, p1, p2) := s_nproc sz in
-        let '(n0, n1, n2) := s_nsmall sz in
-        if fmt_d_ok p0 && fmt_d_ok p1 && fmt_d_ok p2 && fmt_d_ok n0 && fmt_d_ok n1 && fmt_d_ok n2
+        if eqbA (glob_den (p_ofrac p)) zero then Err ErrZeroDiv
+        else if spacing_ok (zip3 (glob1 (p_ofrac p)) (s_nproc sz) (s_nsmall sz))
         then Ok (Some (mkReport true (s_nsmall sz) nsmem (mem_mb (s_nsmall sz))))
-        else Err ErrFmtD
-      else Ok (Some (mkReport false ng gmem (mem_mb ng)))
+        else Err ErrZeroDiv
+      else if spacing_ok (s_ngrid sz)
+      then Ok (Some (mkReport false (s_ngrid sz) gmem (mem_mb (s_ngrid sz))))
+      else Err ErrZeroDiv
     else Ok None.
 
   (* ---- string level: one line of parse_lines --------------------------- *)
@@ -285,12 +295,36 @@ Section Generic.
   (* line[30:].replace("-", " -").split() *)
   Definition words_after30 (line : string) : list string := tokens (dash_sp (drop 30 line)).
 
+  (* line[34:51:8] == "..." : the characters at 34, 42, 50 exist and are '.' *)
+  Definition is_dot (o : option ascii) : bool :=
+    match o with Some c => Ascii.eqb c "."%char | None => false end.
+  Definition coord_dots (line : string) : bool :=
+    is_dot (String.get 34 line) && is_dot (String.get 42 line) && is_dot (String.get 50 line).
+
+  (* the five columns of the fixed-width record, blank ones dropped:
+     [line[i:j] ...] filtered with word.strip() *)
+  Definition fixed_fields (line : string) : list string :=
+    filter (fun w => negb (all_chars is_ws w))
+      [slice 30 38 line; slice 38 46 line; slice 46 54 line; slice 54 62 line; slice 62 69 line].
+
+  (* words[-5:] *)
+  Definition last5 (w : list string) : list string := skipn (List.length w - 5) w.
+
+  (* no decimal points in the PDB coordinate columns: a whitespace-delimited
+     record, its last five words count (C17-F13: the --whitespace layout has the
+     insertion code at index 30).  Otherwise the blank split, and the columns
+     when that leaves fewer than five words (C17-F11 repaired) *)
+  Definition fields_after30 (line : string) : list string :=
+    let w := words_after30 line in
+    if negb (coord_dots line) then last5 w
+    else if (List.length w <? 5)%nat then fixed_fields line else w.
+
   Definition parse_line (line : string) : event :=
     let isa := prefix_of "ATOM" line in      (* line.find("ATOM") == 0 *)
     let ish := prefix_of "HETATM" line in
     if isa || ish then
       let het := negb isa in
-      match words_after30 line with
+      match fields_after30 line with
       | w0 :: w1 :: w2 :: w3 :: w4 :: _ =>
           match pfloat w3, pfloat w4, pfloat w0, pfloat w1, pfloat w2 with
           | Some q, Some r, Some x, Some y, Some z => EvAtom het (x, y, z, q, r)
@@ -420,11 +454,18 @@ Definition Qilog1 (x r : Q) : res Z :=
   else if Qltb r 1 && Qle_bool x 1 then ilog_loop (Z.to_nat 3000) x r 1 0
   else Err ErrUnmodelled.
 
+(* round(q): nearest integer, ties to the even one *)
+Definition Qround (q : Q) : Z :=
+  let d := Zpos (Qden q) in
+  let n := (Qnum q / d)%Z in                             (* floor *)
+  let twice_frac := (2 * (Qnum q - n * d))%Z in
+  if (d <? twice_frac)%Z || ((twice_frac =? d)%Z && Z.odd n) then (n + 1)%Z else n.
+
 Definition QA : Arith Q :=
   mkArith Q
     (fun a b => Qred (a + b)) (fun a b => Qred (a - b))
     (fun a b => Qred (a * b)) (fun a b => Qred (a / b))
-    Qltb inject_Z Qtrunc Qilog1.
+    Qltb inject_Z Qtrunc Qround Qilog1.
 
 (* ---- rendering of results for the correspondence harness ------------------- *)
 
@@ -433,12 +474,12 @@ Local Open Scope string_scope.
 Definition show_Q (q : Q) : string := Z_to_string (Qnum q) ++ "/" ++ Z_to_string (Zpos (Qden q)).
 Definition show_v3 {T : Type} (f : T -> string) (v : vec3 T) : string :=
   let '(a, b, c) := v in f a ++ "," ++ f b ++ "," ++ f c.
-Definition show_pynum (n : pynum (A:=Q)) : string :=
-  match n with PInt z => "i" ++ Z_to_string z | PFloat a => "f" ++ show_Q a end.
+(* "i" = python int (the harness checks the type of nsmall / proc_grid entries) *)
+Definition show_pynum (n : Z) : string := "i" ++ Z_to_string n.
 Definition show_err (e : err) : string :=
   match e with
   | ErrFloat => "ValueError-float" | ErrNone => "TypeError-None" | ErrZeroDiv => "ZeroDivisionError"
-  | ErrCeiling => "ValueError-ceiling" | ErrLog => "ValueError-log" | ErrFmtD => "ValueError-fmt-d"
+  | ErrCeiling => "ValueError-ceiling" | ErrLog => "ValueError-log"
   | ErrFuel => "MODEL-FUEL" | ErrUnmodelled => "MODEL-UNMODELLED"
   end.
 
